@@ -216,6 +216,8 @@ def parse_extract_args(line):
             opts["nth"] = int(w[4:])
         elif w.startswith("vis="):
             opts["vis"] = w[4:]
+        elif w.startswith("as="):
+            opts["as"] = w[3:]
         elif w.startswith("consts="):
             opts["consts"] = [x for x in w[7:].split(",") if x]
         elif w.startswith("cprefix="):
@@ -242,7 +244,35 @@ _file_cache = {}
 EXPANDED = os.path.join(BUILD, "expanded.rs")
 
 
+EXPAND_FEATURES = "num-traits,num-integer,subtle,zeroize"
+
+
+def ensure_expanded():
+    """(re)generate build/expanded.rs with rustc -Zunpretty=expanded when /repo's sources are newer"""
+    import subprocess
+    newest = 0
+    for root, _, files in os.walk(os.path.join(REPO, "src")):
+        for f in files:
+            if f.endswith(".rs"):
+                newest = max(newest, os.path.getmtime(os.path.join(root, f)))
+    newest = max(newest, os.path.getmtime(os.path.join(REPO, "Cargo.toml")))
+    if os.path.exists(EXPANDED) and os.path.getmtime(EXPANDED) >= newest and os.path.getsize(EXPANDED) > 1000:
+        return
+    os.makedirs(BUILD, exist_ok=True)
+    env = dict(os.environ)
+    env["CARGO_NET_OFFLINE"] = "true"
+    p = subprocess.run(["cargo", "+nightly", "rustc", "--offline", "--lib", "--profile=check", "--features", EXPAND_FEATURES,
+                        "--target-dir", os.path.join(BUILD, "expand-target"), "--", "-Zunpretty=expanded"],
+                       cwd=REPO, capture_output=True, text=True, env=env, timeout=900)
+    if p.returncode != 0 or len(p.stdout) < 1000:
+        raise UnitError("macro expansion failed: " + p.stderr[-400:])
+    with open(EXPANDED, "w") as f:
+        f.write(p.stdout)
+
+
 def load_tokens(file_):
+    if file_ == "expanded":
+        ensure_expanded()
     path = EXPANDED if file_ == "expanded" else os.path.join(REPO, file_)
     key = (path, os.path.getmtime(path))
     if key not in _file_cache:
@@ -259,7 +289,7 @@ def extract_real(file_, kind, name, opts):
         raise UnitError("anchor lost: %s in %s: %s" % (name, file_, ex))
     item = toks[s:e]
     from .norm import CONSTS, CONST_PREFIX
-    n = Normaliser(bools=opts["bools"], vis=opts.get("vis", "pub"),
+    n = Normaliser(bools=opts["bools"], vis=opts.get("vis", "pub"), as_name=opts.get("as"),
                    consts=(set(CONSTS) | set(opts["consts"])) if opts.get("consts") else None,
                    const_prefix=(set(CONST_PREFIX) | set(opts["cprefix"])) if opts.get("cprefix") else None)
     try:
